@@ -10,6 +10,9 @@ checks = {
  "C03": dict(cat="model_checking", engine="vsched+explore", tech=MC, ref="DESIGN.md §5 C03",
    text="every schedule of the real hybridbuffer (Accept/Destroy caller, feeder goroutine, scripted consumer) and every consumer behaviour script (confirm, keep + hand back, stall, finish early) within the deviation bound, on a real scratch directory, over 1-3 generations and a grid of memory window x queue capacity x size limit x usable/unusable directory; conservation ledger, FIFO order, non-blocking Accept (deadlock detection), memory and disk bounds",
    note="bounded: <=5 chunks per generation, <=3 generations, deviation bound 1-3; memory bound asserted only when every Accept was issued at quiescence"),
+ "C15": dict(cat="exploration", engine="seq", tech=SEQ + " (independent reference interpreter for every transform and match operator)", ref="DESIGN.md §5 C15, Appendix A.4",
+   text="every leaf transform with its parameter menu, every match operator x argument x carrier, systematic glob patterns x values, all ordered pairs of a 24-leaf menu, leaves under every control context to depth 2/3, all if/switch/block nestings over marker and drop leaves, sampling rates 1..99 x every prefix up to 300 matched records; oracle: fields, Unescaped flag, PASS/DROP and label counts equal the reference interpreter; second record through the same instance",
+   note="nesting grammar at depth >=2 restricted in breadth (see harness/seq_transform/README.md); addFields pair order undefined, only order-independent pair sets; 4 known findings in the third-party glob matcher"),
  "C17": dict(cat="model_checking", engine="vsched+explore", tech=MC, ref="DESIGN.md §5 C17",
    text="all interleavings within the preemption bound of two connection threads, the real SIGHUP goroutine of run.ReloadableOrchestrator and the moment(s) of SIGHUP, at the orchestrator API with recording downstream orchestrators: distinct and reused client numbers, reload succeeding and failing, two reloads; oracles: no record handed to a shut-down pipeline set, every accepted record delivered exactly once, no sink closed by another connection, no nil-sink panic, failed reload has no effect but the failure count",
    note="API level (the deciding level the property names); preemption bound 2 quick / 3 thorough; downstream orchestrators are recording fakes; configuration-file level of reload is exercised by run's own tests and the composed harness"),
